@@ -488,6 +488,10 @@ func c15FuncByName(f *ast.File, name string) *ast.FuncDecl {
 }
 
 func genC15() {
+	// the etcd election's requests and the ticker's structure are generators of their own
+	// (gen_errors c15etcd / c15ticker): a failure there does not stop the Redis scripts
+	runGen("c15etcd", genC15Etcd)
+	runGen("c15ticker", genC15Ticker)
 	fset, f := parseFile("pkg/cluster/redis_election.go")
 	// glue facts: Renew and Leader bodies (printed, whitespace-normalised)
 	for _, m := range []string{"Renew", "Leader"} {
